@@ -1105,6 +1105,12 @@ func init() {
 				c.Emit(&s, obs, mons, "corpus/"+c20Cls(&s, obs))
 			}
 		}
+		if len(c.Corpus) > 0 {
+			// supporting run over the real cluster/ directories of the tree under test (no model counterpart)
+			if obs, mons, ok := c20RealDirs(); ok {
+				c.Emit(map[string]any{"kind": "realdirs"}, obs, mons, "trivial/realdirs")
+			}
+		}
 		for i := 0; i < c.N; i++ {
 			r := c.Rng.Fork()
 			s := c20Gen(r, c.Tier)
